@@ -72,7 +72,7 @@ let eval inp obs =
      (quadratic), so these cases run on the abstract two-level index (vs_add / vs_flush / vs_drop + fc_query), which
      the byte-level engine refines step by step (proofs/VecPersistProofs.v: p_step_sim, cstep_ok).  The specification
      is evaluated on the sub-DAG below A (equal by FcSpecFacts.fc_spec_submap), queries name events with a small ancestry. *)
-  let big = List.length (List.filter (fun op -> match op with ("E" | "A") :: _ -> true | _ -> false) ops) > 400 in
+  let big = List.length (List.filter (fun op -> match op with ("E" | "A") :: _ -> true | _ -> false) ops) > 400 || nv0 > 20 in   (* also: validator sets with more than 20 validators (C20 size class many-validators) *)
   let vsr = ref (vs_init nvn0) and bcache = ref (fcache_new (nat_of_int fcsize)) in
   let restricted a =
     let anc_a = anc !specE a in
@@ -90,7 +90,9 @@ let eval inp obs =
   let obs_arr = Array.of_list obs in
   let mobs = ref [] in
   let vals = List.map nat_of_int (range 0 !nv) in
-  let spec_clock id = List.map obs_of_spec (merged_spec_t !nvn !specE (get_table ()) id) in
+  let clock_memo = Hashtbl.create 64 in   (* the clock of an indexed event never changes: computed once per id *)
+  let spec_clock id = (match Hashtbl.find_opt clock_memo id with Some c -> c | None ->
+      let c = List.map obs_of_spec (merged_spec_t !nvn !specE (get_table ()) id) in Hashtbl.replace clock_memo id c; c) in
   let spec_matrix () = (* row v, column c *)
     List.map (fun v -> List.map (fun c -> match lastp.(c) with None -> N0
                 | Some id -> List.nth (spec_clock id) v) (range 0 !nv)) (range 0 !nv) in
